@@ -63,6 +63,13 @@ def kept (i : Input) (o : Output) : Bool :=
   if o.eff != "-" then o.eff == i.want
   else o.got == i.want || ((o.got == "absent" || o.got == "nil") && emptyish i.want)
 
+/-- "no well-formed setting is silently dropped or replaced by its default (a numeric or duration zero
+conventionally means 'use the default')" for an accepted `set` case -/
+def preservedOK (i : Input) (o : Output) : Bool :=
+  if i.vc == "wf" || (i.vc == "zero" && !numericZero i.want) then kept i o
+  else if i.vc == "zero" then kept i o || o.eff == "-" || o.eff == i.cur || o.eff == i.deff
+  else true
+
 /-- named clauses of the property for one observation -/
 def clauses (i : Input) (o : Output) : List (String × Bool) :=
   let accepted := o.res == "ok"
@@ -70,10 +77,7 @@ def clauses (i : Input) (o : Output) : List (String × Bool) :=
     ("default_valid", i.kind != .dflt || (accepted && o.valid)),
     ("accepted_valid", !accepted || o.valid),
     ("roundtrip", !accepted || (o.fix && (o.eff == "-" || o.eff2 == o.eff))),
-    ("preserved", !(accepted && i.kind == .set) ||
-        (if i.vc == "wf" || (i.vc == "zero" && !numericZero i.want) then kept i o
-         else if i.vc == "zero" then kept i o || o.eff == "-" || o.eff == i.cur || o.eff == i.deff
-         else true)),
+    ("preserved", !(accepted && i.kind == .set) || preservedOK i o),
     ("no_secret_leak", !o.leak) ]
 
 def holds (i : Input) (o : Output) : Bool := (clauses i o).all (·.2)
@@ -115,14 +119,12 @@ def allowed (f : Field) : Bool := allowList.any fun (s, p, _) => s == f.sec && p
 /-- JSON key names that carry the cluster secret, private keys or API credentials (frozen list) -/
 def secretNames : List String := ["secret", "private_key", "basic_auth_credentials"]
 
-def lastComponent (path : String) : String := (path.splitOn ".").getLastD ""
-
 /-- sections that have a displayable form (`identity.json` is never displayed: `config.Identity` has no
 `ToDisplayJSON` and `Manager.ToDisplayJSON` does not include it) -/
 def displayed (f : Field) : Bool := f.sec != "identity"
 
 def secretHidden (f : Field) : Bool :=
-  !(displayed f && secretNames.contains (lastComponent f.path)) || f.hidden
+  !(displayed f && secretNames.contains f.key) || f.hidden
 
 /-- a setting that is saved is also loaded and vice versa ("silently dropped") -/
 def loadedIffSaved (f : Field) : Bool := (f.load == .none) == (f.save == .none)
